@@ -15,6 +15,17 @@ variant `synkit/Graph/MTG/mcs_matcher.py`) is run in-process in every mode (`mcs
   model's unpruned result, hit every host-node set of it exactly once, and report the same size;
 * `get_mappings("G2_to_G1")` must be the pairwise inverse of `get_mappings("G1_to_G2")`.
 
+Streams (all judged by the same gates, see `judge_jobs`): regression corpus, malformed, tiny-exhaustive, random
+(a fresh matcher per query), `options` (non-default / permuted / longer key lists, non-standard defaults, a key that
+lives on nodes and on edges, non-default wildcard pruning), `rare` (tuple orders (a,b) next to (b,a), spectator
+components, symmetric skeletons with one symmetry-breaking attribute, optional attributes absent from a whole graph,
+a graph against itself / its own induced part) and two SESSION streams in which ONE matcher object answers a sequence
+of queries on graph objects that are built once (same query repeated, other mode, other direction, derived objects,
+the same object with new content, an equal copy as a new object, option attribute switched, other public entry
+points in between, reads in any order with the caller scribbling on the copies it was given).  In a session the
+expected answer of every query is still computed by the pure Lean model from (current graph content, options, mode)
+alone, so no history can leak into the expectation.
+
 When implementation and model differ, `spec.mcs` decides whether the property itself is violated
 on the implementation's output (then the input is shrunk and reported), otherwise the broken
 correspondence is reported without input.
@@ -423,14 +434,8 @@ CFGS = [
 ]
 
 
-def rand_case(rnd, kind, variant):
-    """One random pair. kind in planted / copy / disconnected / degraded / random / wild."""
-    cfg = dict(rnd.choice(CFGS))
-    if variant == "mtg":
-        cfg["edge_keys"] = [cfg["edge_keys"][0]] if cfg["edge_keys"] else (None if cfg["edge_keys"] is None else ["order"])
-    n1 = rnd.randint(2, 6)
-    n2 = rnd.randint(2, 7)
-    swap_sizes = rnd.random()
+def base_pair(rnd, kind, n1, n2):
+    """The raw pair ((nodes, edges), (nodes, edges)) of one population kind (ids 0.., shared ids = planted common part)."""
     if kind == "planted":
         core_n, core_e = carve(rnd, *rand_mol(rnd, rnd.randint(4, 6)), size=rnd.randint(2, 4))
         a = grow(rnd, core_n, core_e, max(0, n1 - len(core_n)))
@@ -464,6 +469,18 @@ def rand_case(rnd, kind, variant):
         b = ring(rnd.randint(3, 7), el, o) if rnd.random() < 0.6 else rand_mol(rnd, n2, elems=[el, el, "O"])
     else:
         a, b = rand_mol(rnd, n1), rand_mol(rnd, n2)
+    return a, b
+
+
+def rand_case(rnd, kind, variant):
+    """One random pair. kind in planted / copy / disconnected / degraded / random / wild."""
+    cfg = dict(rnd.choice(CFGS))
+    if variant == "mtg":
+        cfg["edge_keys"] = [cfg["edge_keys"][0]] if cfg["edge_keys"] else (None if cfg["edge_keys"] is None else ["order"])
+    n1 = rnd.randint(2, 6)
+    n2 = rnd.randint(2, 7)
+    swap_sizes = rnd.random()
+    a, b = base_pair(rnd, kind, n1, n2)
     # size relation: force "first larger" in a third of the cases, equal in some
     if swap_sizes < 0.35 and len(a[0]) < len(b[0]):
         a, b = b, a
@@ -517,16 +534,15 @@ def stats(ctx, case, mcs, prune, im, tag):
         ctx.count("constructor:" + im)
 
 
-def run_cases(ctx, cases, tag, modes_main=MODES_MAIN, modes_mtg=MODES_MTG):
-    """Evaluate cases in every mode; one batched driver call."""
-    jobs = []  # (case, mcs, prune, impl)
-    for case in cases:
-        modes = modes_mtg if case.get("variant", "main") == "mtg" else modes_main
-        for mcs, prune in modes:
-            jobs.append((case, mcs, prune, impl_run(case, mcs, prune)))
+def judge_jobs(ctx, jobs, tag):
+    """jobs: [(case, mcs, prune, impl record, canonical, has_history)] -> [(diffs, viols)] per job.
+
+    The model / specification side is asked per job, from the job's own (pair, options, mode) only -
+    the Lean model is a pure function, so whatever happened to the matcher object before the query
+    cannot enter the expected answer.  One batched driver call."""
     reqs = []
     slots = []
-    for case, mcs, prune, im in jobs:
+    for case, mcs, prune, im, _canon, _hist in jobs:
         s = {"model": len(reqs)}
         reqs.append(find_req(case, mcs, False))
         if isinstance(im, dict) and "exception" not in im:
@@ -537,8 +553,8 @@ def run_cases(ctx, cases, tag, modes_main=MODES_MAIN, modes_mtg=MODES_MTG):
             reqs.append(find_req(case, mcs, True))
         slots.append(s)
     ans = ctx.lean().ok(reqs, shards=8)
-    bad_cases = {}
-    for (case, mcs, prune, im), s in zip(jobs, slots):
+    verdicts = []
+    for (case, mcs, prune, im, canon, hist), s in zip(jobs, slots):
         model = ans[s["model"]]
         spec = ans[s["spec"]] if "spec" in s else None
         stats(ctx, case, mcs, prune, im, tag)
@@ -548,10 +564,12 @@ def run_cases(ctx, cases, tag, modes_main=MODES_MAIN, modes_mtg=MODES_MTG):
         if isinstance(im, dict) and "exception" not in im and mcs:
             k = im["last_size"]
             nontriv = (k >= 2 and k < n1 and k < n2) or (k >= 1 and len(im["pattern_to_host"]) >= 2)
-        ctx.case([case, mcs, prune], nontriv,
+        if hist is not None:  # a query on a matcher that has already answered others
+            nontriv = bool(hist) and isinstance(im, dict) and "exception" not in im and im["last_size"] >= 2
+        ctx.case(canon if canon is not None else [case, mcs, prune], nontriv,
                  sample={"stream": tag, "mcs": mcs, "prune": prune, "case": case,
                          "impl": im if not isinstance(im, dict) else {k: im.get(k) for k in ("pattern_is_g1", "last_size", "g1_to_g2")}}
-                 if (nontriv and n1 <= 4 and n2 <= 4) else None)
+                 if (nontriv and n1 <= 4 and n2 <= 4 and hist is None) else None)
         diffs = structural_diffs(im, model, model, mcs, prune)
         viols = spec_verdict(im, spec, mcs)
         if isinstance(im, dict) and "exception" not in im and isinstance(model, dict):
@@ -563,6 +581,19 @@ def run_cases(ctx, cases, tag, modes_main=MODES_MAIN, modes_mtg=MODES_MTG):
                 if md:  # the model's own pruned run must pass the same gate (it is what the theorem is about)
                     diffs = ["model self-check (pruned model run vs unpruned model run): " + x for x in md]
                 ctx.count("pruned_survivors_equal_model_choice:" + ("yes" if sset(im["pattern_to_host"]) == sset(pm["pattern_to_host"]) else "no"))
+        verdicts.append((diffs, viols))
+    return verdicts
+
+
+def run_cases(ctx, cases, tag, modes_main=MODES_MAIN, modes_mtg=MODES_MTG):
+    """Evaluate cases in every mode (a fresh matcher per query); one batched driver call."""
+    jobs = []
+    for case in cases:
+        modes = modes_mtg if case.get("variant", "main") == "mtg" else modes_main
+        for mcs, prune in modes:
+            jobs.append((case, mcs, prune, impl_run(case, mcs, prune), None, None))
+    bad_cases = {}
+    for (case, mcs, prune, im, _c, _h), (diffs, viols) in zip(jobs, judge_jobs(ctx, jobs, tag)):
         if diffs or viols:
             key = json.dumps(case, sort_keys=True)
             bad_cases.setdefault(key, (case, [], []))
@@ -588,6 +619,589 @@ def report(ctx, case, diffs, viols, tag):
                       small, {"differences_from_model": (d2 or diffs)[:8], "stream": tag}, no_input=True)
 
 
+# ---------------------------------------------------------------- option / attribute-selection variation
+NODE_KEY_POOL = ["element", "charge", "hcount", "w"]
+NODE_KEY_STD_DEFAULT = {"element": "*", "charge": 0, "hcount": 0, "w": 1}
+NODE_KEY_DOMAIN = {"element": ["C", "N", "O"], "charge": [0, 1, -1], "hcount": [0, 1, 2, 3], "w": [1, 2]}
+EDGE_KEY_POOL = ["order", "standard_order", "w"]  # "w" lives on nodes AND on edges
+
+
+def enrich(rnd, a, b, keep=0.85):
+    """Add the attributes hcount / w (nodes) and w (edges) to a raw pair.  Items with the same id in both graphs
+    (the planted common part, a copy) get the same value with probability `keep`, so that the common part mostly
+    survives the richer key sets."""
+    tab_n, tab_e = {}, {}
+    for g in (a, b):
+        for i, at in g[0].items():
+            for k, dom in (("hcount", [0, 0, 1, 2, 3]), ("w", [1, 1, 2])):
+                if (i, k) not in tab_n:
+                    tab_n[(i, k)] = rnd.choice(dom)
+                at[k] = tab_n[(i, k)] if rnd.random() < keep else rnd.choice(dom)
+        for e, at in g[1].items():
+            if e not in tab_e:
+                tab_e[e] = rnd.choice([1, 1, 2, 1.5])
+            at["w"] = tab_e[e] if rnd.random() < keep else rnd.choice([1, 2, 1.5])
+
+
+def rand_cfg(rnd, variant):
+    """A non-default option set: permuted / longer / shorter key lists, non-standard defaults, keys living on both
+    nodes and edges, non-default wildcard pruning."""
+    r = rnd.random()
+    if r < 0.1:
+        nk, nd = None, None
+    else:
+        nk = rnd.sample(NODE_KEY_POOL, rnd.choice([1, 2, 2, 3, 3, 4]))
+        if rnd.random() < 0.2:
+            nd = None  # "*" for every key
+        else:
+            nd = []
+            for k in nk:
+                q = rnd.random()
+                nd.append(V(NODE_KEY_STD_DEFAULT[k]) if q < 0.5 else V(rnd.choice(NODE_KEY_DOMAIN[k])) if q < 0.85 else None)
+    if variant == "mtg":
+        ek = None if rnd.random() < 0.15 else [rnd.choice(EDGE_KEY_POOL)]
+    else:
+        q = rnd.random()
+        ek = None if q < 0.1 else [] if q < 0.15 else rnd.sample(EDGE_KEY_POOL, rnd.choice([1, 2, 2, 3]))
+    cfg = dict(node_keys=nk, node_defaults=nd, edge_keys=ek)
+    if variant == "main" and rnd.random() < 0.3:
+        cfg["prune_wc"] = rnd.choice([["element", V("*")], ["element", V("O")], ["charge", V(1)], ["w", V(2)], ["hcount", V(3)]])
+    return cfg
+
+
+def finish_pair(rnd, a, b, variant, cfg, swap_p=0.35, overlap_p=0.15):
+    """Orientation, relabelling and shuffling shared by the new generators."""
+    if rnd.random() < swap_p and len(a[0]) < len(b[0]):
+        a, b = b, a
+    overlap = rnd.random() < overlap_p
+    na, ea, _ = relabel_shuffle(rnd, *a, base=rnd.choice([0, 1, 5]), contiguous=rnd.random() < 0.3)
+    nb, eb, _ = relabel_shuffle(rnd, *b, base=(0 if overlap else 40), contiguous=rnd.random() < 0.3)
+    return na, ea, nb, eb
+
+
+def options_case(rnd, variant):
+    kind = rnd.choice(["planted", "planted", "copy", "copy", "symmetric", "disconnected", "random"])
+    a, b = base_pair(rnd, kind, rnd.randint(2, 5), rnd.randint(2, 6))
+    enrich(rnd, a, b)
+    cfg = rand_cfg(rnd, variant)
+    na, ea, nb, eb = finish_pair(rnd, a, b, variant, cfg)
+    if rnd.random() < 0.3:
+        degrade(rnd, na, ea, p_node=0.12, p_edge=0.12, wildcard_p=0.1)
+        degrade(rnd, nb, eb, p_node=0.12, p_edge=0.12, wildcard_p=0.1)
+    if rnd.random() < 0.2:  # an optional attribute absent from one whole graph
+        k = rnd.choice(["charge", "hcount", "w"])
+        for _, at in rnd.choice([na, nb]):
+            at.pop(k, None)
+    return {"g1": mk_graph(na, ea), "g2": mk_graph(nb, eb), "variant": variant, **cfg}
+
+
+# ---------------------------------------------------------------- rare but legal inputs
+def skeleton(rnd, shape, k):
+    """A symmetric skeleton with uniform labels: ring / path / star / clique."""
+    if shape == "ring" and k >= 3:
+        es = [(i, (i + 1) % k) for i in range(k)]
+    elif shape == "star":
+        es = [(0, i) for i in range(1, k)]
+    elif shape == "clique":
+        es = [(i, j) for i in range(k) for j in range(i + 1, k)]
+    else:
+        es = [(i, i + 1) for i in range(k - 1)]
+    return es
+
+
+def sym_break_pair(rnd):
+    """Both graphs carry the same (or a one-size-off) symmetric skeleton with uniform labels; exactly ONE attribute of
+    one item breaks the symmetry (in one graph, or in both - at the same or at a different place)."""
+    shape = rnd.choice(["ring", "ring", "path", "star", "clique"])
+    k1 = rnd.randint(3, 5) if shape != "clique" else rnd.randint(3, 4)
+    k2 = k1 if rnd.random() < 0.6 else min(6, k1 + 1)
+    el, o = rnd.choice(["C", "N"]), rnd.choice([1.0, 1.5, 2.0])
+
+    def build(k):
+        ns = {i: {"element": el, "charge": 0, "hcount": 1} for i in range(k)}
+        es = {tuple(sorted(e)): {"order": o, "standard_order": o, "w": 1} for e in skeleton(rnd, shape, k)}
+        return ns, es
+    a, b = build(k1), build(k2)
+    what = rnd.choice(["charge", "element", "hcount", "order", "standard_order", "w", "tuple", "missing"])
+
+    def brk(g):
+        if what in ("charge", "element", "hcount"):
+            i = rnd.choice(list(g[0]))
+            g[0][i][what] = {"charge": 1, "element": "O", "hcount": 2}[what]
+        else:
+            e = rnd.choice(list(g[1]))
+            if what == "tuple":
+                g[1][e]["order"] = (o, 2.0 if o != 2.0 else 1.0)
+            elif what == "missing":
+                g[1][e].pop("order")
+            else:
+                g[1][e][what] = 3.0 if what != "w" else 2
+    r = rnd.random()
+    brk(a)
+    if r < 0.6:
+        brk(b)
+    node_keys = ["element", "charge", "hcount"]
+    edge_keys = ["order", "standard_order", "w"]
+    breaker = what if what not in ("tuple", "missing") else "order"
+    sees = rnd.random() < 0.7  # does the option set select the symmetry-breaking attribute?
+    nk = [x for x in node_keys if x != breaker and rnd.random() < 0.5]
+    ek = [x for x in edge_keys if x != breaker and rnd.random() < 0.4]
+    if sees:
+        (nk if breaker in node_keys else ek).append(breaker)
+    if not nk:
+        nk = ["element"] if breaker != "element" or sees else ["charge"]
+    if not ek:
+        ek = ["order"] if breaker != "order" or sees else ["standard_order"]
+    rnd.shuffle(nk); rnd.shuffle(ek)
+    cfg = dict(node_keys=nk, node_defaults=[V(NODE_KEY_STD_DEFAULT[x]) for x in nk], edge_keys=ek)
+    return a, b, cfg
+
+
+def tuple_swap(rnd, a, b):
+    """Tuple-valued orders: (x, y) in one graph next to (x, y) / (y, x) / x / (x, x) on the same edge of the other."""
+    shared = [e for e in a[1] if e in b[1]] or list(a[1])
+    for e in rnd.sample(shared, min(len(shared), rnd.randint(1, 3))) if shared else []:
+        x, y = rnd.sample([1.0, 2.0, 1.5, 3.0], 2)
+        a[1][e]["order"] = (x, y)
+        if e in b[1]:
+            b[1][e]["order"] = rnd.choice([(x, y), (x, y), (y, x), (y, x), x, (x, x), (x, y, y), None])
+    for g in (a, b):  # and a few unrelated ones
+        for e in g[1]:
+            if rnd.random() < 0.1:
+                g[1][e]["order"] = tuple(rnd.sample([1.0, 2.0, 1.5], 2))
+
+
+def add_spectators(rnd, g, base_id):
+    """Extra components that take no part in the common structure: isolated atoms, a two-atom molecule."""
+    ns, es = g
+    i = max(list(ns) + [base_id - 1]) + 1
+    for _ in range(rnd.randint(1, 2)):
+        if rnd.random() < 0.5:
+            ns[i] = {"element": rnd.choice(["O", "Cl", "C", "*"]), "charge": rnd.choice([0, 0, -1])}
+            i += 1
+        else:
+            ns[i] = {"element": rnd.choice(["C", "O", "N"]), "charge": 0}
+            ns[i + 1] = {"element": rnd.choice(["C", "O"]), "charge": 0}
+            o = rnd.choice([1.0, 2.0])
+            es[(i, i + 1)] = {"order": o, "standard_order": o}
+            i += 2
+
+
+def rare_case(rnd, variant, kind):
+    cfg = dict(rnd.choice(CFGS))
+    if kind == "sym_break":
+        a, b, cfg = sym_break_pair(rnd)
+    elif kind == "tuple_swap":
+        a, b = base_pair(rnd, rnd.choice(["planted", "copy", "copy"]), rnd.randint(2, 5), rnd.randint(2, 6))
+        tuple_swap(rnd, a, b)
+    elif kind == "spectator":
+        a, b = base_pair(rnd, rnd.choice(["planted", "copy"]), rnd.randint(2, 4), rnd.randint(2, 4))
+        which = rnd.random()
+        if which < 0.7:
+            add_spectators(rnd, a, 50)
+        if which > 0.3:
+            add_spectators(rnd, b, 60)
+    elif kind == "missing_opt":
+        a, b = base_pair(rnd, rnd.choice(["planted", "copy"]), rnd.randint(2, 5), rnd.randint(2, 6))
+        cfg = dict(rnd.choice(CFGS[2:5]))
+        for g in rnd.choice([(a,), (b,), (a, b)]):
+            what = rnd.choice(["charge", "order", "standard_order", "element"])
+            if what in ("charge", "element"):
+                for at in g[0].values():
+                    at.pop(what, None)
+            else:
+                for at in g[1].values():
+                    at.pop(what, None)
+    else:  # "identical": the very same labelled graph twice, same ids, or a graph against an induced part of itself
+        a = rand_mol(rnd, rnd.randint(2, 6))
+        if rnd.random() < 0.5:
+            b = ({k: dict(v) for k, v in a[0].items()}, {k: dict(v) for k, v in a[1].items()})
+        else:
+            b = carve(rnd, *a, size=rnd.randint(1, len(a[0])))
+        if variant == "mtg" and cfg["edge_keys"] is not None:
+            cfg["edge_keys"] = [cfg["edge_keys"][0]] if cfg["edge_keys"] else ["order"]
+        ida = lambda g: ([(i, dict(at)) for i, at in g[0].items()], [(u, v, dict(at)) for (u, v), at in g[1].items()])
+        (na, ea), (nb, eb) = ida(a), ida(b)
+        if rnd.random() < 0.5:
+            na, ea, nb, eb = nb, eb, na, ea
+        return {"g1": mk_graph(na, ea), "g2": mk_graph(nb, eb), "variant": variant, **cfg}
+    if variant == "mtg" and cfg["edge_keys"] is not None:
+        cfg["edge_keys"] = [cfg["edge_keys"][0]] if cfg["edge_keys"] else ["order"]
+    na, ea, nb, eb = finish_pair(rnd, a, b, variant, cfg)
+    return {"g1": mk_graph(na, ea), "g2": mk_graph(nb, eb), "variant": variant, **cfg}
+
+
+RARE_KINDS = ["sym_break", "sym_break", "tuple_swap", "tuple_swap", "spectator", "missing_opt", "identical"]
+
+
+# ---------------------------------------------------------------- sessions: one matcher object, many queries
+# A session is {"session": true, variant, option fields, "prune": bool, "graphs": [graph JSON ...], "steps": [...]}.
+# The graphs of the pool are built ONCE as networkx objects and handed to the matcher again and again, so anything the
+# implementation remembers between calls (on the instance, the class, the module, or keyed by graph identity / content)
+# is exercised.  Steps:
+#   {"op": "find", "a": i, "b": j, "mcs": bool, "peek": [[direction, mutate] ...]}   gated query (pool objects i, j)
+#   {"op": "set_graph", "g": i, "graph": J}     the pool object i is changed IN PLACE to content J (same identity)
+#   {"op": "new_object", "g": i}                pool object i is replaced by an equal deep copy (new identity)
+#   {"op": "set_prune", "value": bool}          main variant: the public attribute prune_automorphisms is changed
+#   {"op": "new_matcher"}                       a new matcher object with the same options (graph objects stay)
+#   {"op": "noise", "kind": ..., "a": i, "b": j}  another public entry point is used (mcs_mol / find_rc_mapping); its
+#                                               result is not gated (out of scope), only that it leaves nothing behind
+# Every "find" step is judged exactly like a stand-alone case: model and specification are computed from the CURRENT
+# content of the two graphs, the options and the mode alone.
+def _fill(G, j):
+    G.clear()
+    for n, a in j["nodes"]:
+        G.add_node(n, **{k: graphio.unval(v) for k, v in a.items()})
+    for u, v, a in j["edges"]:
+        G.add_edge(u, v, **{k: graphio.unval(x) for k, x in a.items()})
+
+
+def _make_matcher(sess, prune):
+    nk, nd, ek = sess.get("node_keys"), _unval_opt(sess.get("node_defaults")), sess.get("edge_keys")
+    if sess.get("variant", "main") == "mtg":
+        from synkit.Graph.MTG.mcs_matcher import MCSMatcher as M
+
+        kw = {}
+        if ek is not None:
+            kw["edge_attribute"] = ek[0]
+        return M(node_label_names=nk, node_label_defaults=nd, **kw)
+    from synkit.Graph.Matcher.mcs_matcher import MCSMatcher as M
+
+    kw = {}
+    wc = sess.get("prune_wc")
+    if wc is not None:
+        kw.update(prune_wc=True, element_key=wc[0], wildcard_element=graphio.unval(wc[1]))
+    return M(node_attrs=nk, node_defaults=nd, edge_attrs=ek, prune_automorphisms=prune, **kw)
+
+
+def session_cfg(sess):
+    d = {k: sess.get(k) for k in ("node_keys", "node_defaults", "edge_keys")}
+    d["variant"] = sess.get("variant", "main")
+    if sess.get("prune_wc") is not None:
+        d["prune_wc"] = sess["prune_wc"]
+    return d
+
+
+def session_run(sess):
+    """Run a session on the real code -> [(step index, virtual case, mcs, prune, impl record, n earlier finds)]."""
+    mtg = sess.get("variant", "main") == "mtg"
+    prune = bool(sess.get("prune", False)) and not mtg
+    cfg = session_cfg(sess)
+    cur = [g for g in sess["graphs"]]
+    out = []
+    try:
+        m = _make_matcher(sess, prune)
+        objs = [graphio.to_nx(g) for g in cur]
+    except Exception as e:
+        return [(0, {"g1": cur[0], "g2": cur[0], **cfg}, True, prune, {"exception": "session setup: " + type(e).__name__ + ": " + str(e)[:200]}, 0)]
+    held = None  # (python result object of the previous find, its recorded value)
+    nfind = 0
+    virgin = True  # nothing has been asked of the current matcher object yet
+    for si, st in enumerate(sess["steps"]):
+        op = st["op"]
+        if op == "set_graph":
+            _fill(objs[st["g"]], st["graph"])
+            cur[st["g"]] = st["graph"]
+        elif op == "new_object":
+            objs[st["g"]] = copy.deepcopy(objs[st["g"]])
+        elif op == "set_prune":
+            if not mtg:
+                m.prune_automorphisms = bool(st["value"])
+                prune = bool(st["value"])
+        elif op == "new_matcher":
+            m = _make_matcher(sess, prune)
+            held = None
+            virgin = True
+        elif op == "noise":
+            virgin = False
+            try:
+                if st["kind"] == "mcs_mol":
+                    m.find_common_subgraph(objs[st["a"]], objs[st["b"]], mcs_mol=True)
+                elif st["kind"] == "rc_component" and not mtg:
+                    m.find_rc_mapping(objs[st["a"]], objs[st["b"]], side="its", mcs=True, component=True)
+                elif st["kind"] == "rc_plain" and not mtg:
+                    m.find_rc_mapping(objs[st["a"]], objs[st["b"]], side="its", mcs=bool(st.get("mcs", True)), component=False)
+                elif st["kind"] == "read":
+                    m.get_mappings()
+            except Exception:
+                pass  # out of scope; only its after-effects on later gated queries matter
+        elif op == "find":
+            G1, G2 = objs[st["a"]], objs[st["b"]]
+            case = {"g1": cur[st["a"]], "g2": cur[st["b"]], **cfg}
+            mcs = bool(st["mcs"])
+            before = (graphio.graph(G1), graphio.graph(G2))
+            try:
+                fresh = graphio_list(m.get_mappings() if mtg else m.get_mappings("host_to_pattern")) if virgin else []
+                virgin = False
+                ret = m.find_common_subgraph(G1, G2, mcs=mcs)
+                # reads in between, in any order; the caller may do what it likes with the COPIES it was given
+                for d, mutate in st.get("peek", []):
+                    if mtg:
+                        r = m.get_mappings()
+                        if mutate:
+                            r.clear()  # (the MTG class documents a copy of the LIST only)
+                    else:
+                        r = m.mappings if d == "mappings" else m.get_mappings(d)
+                        if mutate:
+                            for x in r:
+                                x.clear()
+                            r.clear()
+                if mtg:
+                    raw = m.get_mappings()
+                    p2h = graphio_list(raw)
+                    im = {"pattern_is_g1": True, "last_size": int(m.last_size), "pattern_to_host": p2h, "g1_to_g2": p2h,
+                          "g2_to_g1": [sorted([h, p] for p, h in x) for x in p2h], "other_direction": None, "fresh": fresh}
+                else:
+                    if ret is not m:
+                        raise RuntimeError("find_common_subgraph did not return self")
+                    try:
+                        other = graphio_list(m.get_mappings("host_to_pattern"))
+                    except ValueError:
+                        other = "ValueError"
+                    raw = m.get_mappings("pattern_to_host")
+                    im = {"pattern_is_g1": m._last_pattern_is_G1, "last_size": int(m.last_size),
+                          "pattern_to_host": graphio_list(raw),
+                          "g1_to_g2": graphio_list(m.get_mappings("G1_to_G2")),
+                          "g2_to_g1": graphio_list(m.get_mappings("G2_to_G1")),
+                          "other_direction": other, "fresh": fresh}
+                    if graphio_list(m.mappings) != im["pattern_to_host"]:
+                        im = {"exception": "mappings property differs from get_mappings('pattern_to_host')"}
+                if "exception" not in im and held is not None and graphio_list(held[0]) != held[1]:
+                    im = {"exception": "the mappings handed out for the previous query changed when this query ran"}
+                if "exception" not in im:
+                    held = (raw, im["pattern_to_host"])
+            except Exception as e:
+                im = {"exception": type(e).__name__ + ": " + str(e)[:200]}
+                held = None
+            if "exception" not in im and (graphio.graph(G1), graphio.graph(G2)) != before:
+                im = {"exception": "input graph mutated"}
+            out.append((si, case, mcs, prune, im, nfind))
+            nfind += 1
+    return out
+
+
+def session_jobs(sess, runs):
+    key = json.dumps(sess, sort_keys=True)
+    return [(case, mcs, prune, im, ["session", key, si], nf) for si, case, mcs, prune, im, nf in runs]
+
+
+def evaluate_session(ctx, sess):
+    """-> (diffs, viols), each entry tagged with the step it belongs to (used by shrink and replay)."""
+    runs = session_run(sess)
+    reqs, where = [], []
+    for si, case, mcs, prune, im, _ in runs:
+        where.append(len(reqs))
+        reqs.append(find_req(case, mcs, False))
+        reqs.append(spec_req(case, im["g1_to_g2"], im["last_size"]) if "exception" not in im else None)
+    idx = [i for i, r in enumerate(reqs) if r is not None]
+    full = [None] * len(reqs)
+    for i, a in zip(idx, ctx.lean().ok([reqs[i] for i in idx])):
+        full[i] = a
+    diffs, viols = [], []
+    for (si, case, mcs, prune, im, _), w in zip(runs, where):
+        st = sess["steps"][si] if si < len(sess["steps"]) else {}
+        tag = f"[step {si}: find(graph {st.get('a')}, graph {st.get('b')}, mcs={mcs}) prune={prune}] "
+        diffs += [tag + x for x in structural_diffs(im, full[w], full[w], mcs, prune)]
+        viols += [tag + x for x in spec_verdict(im, full[w + 1], mcs)]
+    return diffs, viols
+
+
+def shrink_session(ctx, sess, want_spec):
+    def bad(s):
+        if not any(st["op"] == "find" for st in s["steps"]):
+            return False
+        d, v = evaluate_session(ctx, s)
+        return bool(v) if want_spec else bool(d)
+
+    steps = shrink_seq(list(range(len(sess["steps"]))), lambda ix: bad({**sess, "steps": [sess["steps"][i] for i in ix]}), budget=80)
+    sess = {**sess, "steps": [sess["steps"][i] for i in steps]}
+    # drop the reads in between
+    slim = {**sess, "steps": [({**st, "peek": []} if st["op"] == "find" else st) for st in sess["steps"]]}
+    if bad(slim):
+        sess = slim
+    # nodes / edges of the pool graphs
+    els = [(g, "n", i) for g in range(len(sess["graphs"])) for i in range(len(sess["graphs"][g]["nodes"]))]
+    els += [(g, "e", i) for g in range(len(sess["graphs"])) for i in range(len(sess["graphs"][g]["edges"]))]
+
+    def rebuild(keep):
+        keep = set(keep)
+        gs = []
+        for g, G in enumerate(sess["graphs"]):
+            nodes = [n for i, n in enumerate(G["nodes"]) if (g, "n", i) in keep]
+            ids = {n[0] for n in nodes}
+            gs.append({"nodes": nodes, "edges": [e for i, e in enumerate(G["edges"]) if (g, "e", i) in keep and e[0] in ids and e[1] in ids]})
+        return {**sess, "graphs": gs}
+
+    def bad_els(keep):
+        s = rebuild(keep)
+        used = {st[k] for st in s["steps"] if st["op"] == "find" for k in ("a", "b")}
+        if any(not s["graphs"][g]["nodes"] for g in used):
+            return False
+        return bad(s)
+
+    return compact_session(rebuild(shrink_seq(els, bad_els, budget=150)))
+
+
+def compact_session(sess):
+    """Drop pool graphs no step refers to and renumber the rest."""
+    used = sorted({st[k] for st in sess["steps"] for k in ("a", "b", "g") if k in st})
+    f = {g: i for i, g in enumerate(used)}
+    steps = [{k: (f[v] if k in ("a", "b", "g") else v) for k, v in st.items()} for st in sess["steps"]]
+    return {**sess, "graphs": [sess["graphs"][g] for g in used], "steps": steps}
+
+
+def report_session(ctx, sess, diffs, viols, tag):
+    if viols:
+        small = shrink_session(ctx, sess, want_spec=True)
+        d2, v2 = evaluate_session(ctx, small)
+        ctx.violation("common-subgraph matcher output violates C12 (validity / equal size / maximality / inverse directions) "
+                      "for a query put to a matcher object that had answered other queries before",
+                      small, {"spec_violations": v2 or viols, "differences_from_model": (d2 or diffs)[:8], "stream": tag,
+                              "how_to_read": "case is a session: graphs = pool of graph objects built once; steps are applied in order to ONE matcher",
+                              "impl": [{"step": si, "mcs": mcs, "prune": prune, "result": im} for si, _, mcs, prune, im, _ in session_run(small)]})
+    else:
+        small = shrink_session(ctx, sess, want_spec=False)
+        d2, _ = evaluate_session(ctx, small)
+        ctx.violation("correspondence broken: a reused MCSMatcher object differs from the Lean model SynKit.Mcs.find (a pure function of "
+                      "pair, options and mode); the specification holds on the implementation's output",
+                      small, {"differences_from_model": (d2 or diffs)[:8], "stream": tag}, no_input=True)
+
+
+def run_sessions(ctx, sessions, tag):
+    jobs, owner = [], []
+    for k, sess in enumerate(sessions):
+        js = session_jobs(sess, session_run(sess))
+        jobs += js
+        owner += [k] * len(js)
+        ctx.count("session_steps:" + tag, len(sess["steps"]))
+        for st in sess["steps"]:
+            ctx.count("session_op:" + st["op"])
+    bad = {}
+    for k, job, (diffs, viols) in zip(owner, jobs, judge_jobs(ctx, jobs, tag)):
+        if diffs or viols:
+            si = job[4][2]
+            bad.setdefault(k, ([], []))
+            bad[k][0].extend(f"[step {si}] {x}" for x in diffs)
+            bad[k][1].extend(f"[step {si}] {x}" for x in viols)
+    for k in list(bad)[:2]:
+        report_session(ctx, sessions[k], bad[k][0], bad[k][1], tag)
+    return not bad
+
+
+# -- session generators
+def edit_graph_json(rnd, g):
+    """A one-edit neighbour of graph JSON g (the same object will carry it afterwards)."""
+    g = copy.deepcopy(g)
+    r = rnd.random()
+    if r < 0.3 and g["edges"]:
+        e = rnd.choice(g["edges"])
+        e[2]["order"] = V(rnd.choice([1.0, 2.0, 1.5, 3.0]))
+    elif r < 0.5 and g["nodes"]:
+        n = rnd.choice(g["nodes"])
+        n[1]["element"] = V(rnd.choice(["C", "N", "O", "S"]))
+    elif r < 0.65 and g["edges"]:
+        g["edges"].remove(rnd.choice(g["edges"]))
+    elif r < 0.85 and g["nodes"]:
+        new = max(n[0] for n in g["nodes"]) + 1
+        at = rnd.choice(g["nodes"])
+        g["nodes"].append([new, graphio.attrs({"element": rnd.choice(["C", "O", "N"]), "charge": 0})])
+        g["edges"].append([at[0], new, graphio.attrs({"order": 1.0, "standard_order": 1.0})])
+    elif len(g["nodes"]) > 1:
+        n = rnd.choice(g["nodes"])
+        g["nodes"].remove(n)
+        g["edges"] = [e for e in g["edges"] if n[0] not in (e[0], e[1])]
+    return g
+
+
+def derive_graph_json(rnd, g):
+    """A derived object: equal copy / relabelled shuffled copy / induced part / one-edit neighbour."""
+    r = rnd.random()
+    if r < 0.3:
+        return copy.deepcopy(g)
+    if r < 0.55:
+        ids = [n[0] for n in g["nodes"]]
+        f = dict(zip(ids, rnd.sample(range(100, 100 + 3 * len(ids) + 2), len(ids))))
+        ns = [[f[n[0]], copy.deepcopy(n[1])] for n in g["nodes"]]
+        es = [[f[e[0]], f[e[1]], copy.deepcopy(e[2])] for e in g["edges"]]
+        rnd.shuffle(ns); rnd.shuffle(es)
+        return {"nodes": ns, "edges": es}
+    if r < 0.8 and len(g["nodes"]) > 1:
+        keep = set(rnd.sample([n[0] for n in g["nodes"]], rnd.randint(1, len(g["nodes"]) - 1)))
+        return {"nodes": [copy.deepcopy(n) for n in g["nodes"] if n[0] in keep],
+                "edges": [copy.deepcopy(e) for e in g["edges"] if e[0] in keep and e[1] in keep]}
+    return edit_graph_json(rnd, g)
+
+
+PEEK_MAIN = ["pattern_to_host", "G1_to_G2", "G2_to_G1", "mappings"]
+
+
+def rand_peek(rnd):
+    return [[rnd.choice(PEEK_MAIN), rnd.random() < 0.5] for _ in range(rnd.choice([0, 0, 1, 2, 3]))]
+
+
+def rand_session(rnd, base_case, nsteps):
+    """A session around the pair of `base_case` (its options are the matcher's options)."""
+    variant = base_case.get("variant", "main")
+    pool = [base_case["g1"], base_case["g2"]]
+    for _ in range(rnd.choice([0, 1, 1, 2])):
+        pool.append(derive_graph_json(rnd, rnd.choice(pool[:2])))
+    sess = {"session": True, **cfg_fields(base_case), "prune": variant == "main" and rnd.random() < 0.3, "graphs": pool, "steps": []}
+    steps = sess["steps"]
+    pair = (0, 1)
+    mcs = rnd.random() < 0.5
+    cur = list(pool)
+    n = 0
+    while n < nsteps:
+        r = rnd.random()
+        if not steps:
+            pass  # first query: the base pair
+        elif r < 0.34:      # the same two objects again, the other / the same mode
+            mcs = (not mcs) if rnd.random() < 0.7 else mcs
+        elif r < 0.46:      # the same two objects, the other way round
+            pair = (pair[1], pair[0])
+            mcs = rnd.random() < 0.6
+        elif r < 0.66:      # other objects of the pool (possibly the same object twice)
+            pair = (rnd.randrange(len(pool)), rnd.randrange(len(pool)))
+            mcs = rnd.random() < 0.6
+        elif r < 0.76:      # the same object with new content, asked again
+            g = rnd.choice(pair)
+            cur[g] = edit_graph_json(rnd, cur[g])
+            steps.append({"op": "set_graph", "g": g, "graph": cur[g]})
+        elif r < 0.82:
+            steps.append({"op": "new_object", "g": rnd.choice(pair)})
+        elif r < 0.88:
+            if variant == "main":
+                steps.append({"op": "set_prune", "value": rnd.random() < 0.5})
+        elif r < 0.92:
+            steps.append({"op": "new_matcher"})
+        else:
+            kinds = ["mcs_mol", "read"] if variant == "mtg" else ["mcs_mol", "rc_component", "rc_plain", "read"]
+            steps.append({"op": "noise", "kind": rnd.choice(kinds), "a": pair[0], "b": pair[1], "mcs": rnd.random() < 0.5})
+        steps.append({"op": "find", "a": pair[0], "b": pair[1], "mcs": mcs, "peek": rand_peek(rnd)})
+        n += 1
+    return sess
+
+
+def tiny_sessions(rnd, classes, pairs, group, variant_p_mtg=0.2):
+    """Long-lived matchers over the tiny population: `group` pairs per matcher object; every pair is asked in all four
+    (direction, mode) combinations in a seeded order, plus one repetition."""
+    out = []
+    for k in range(0, len(pairs), group):
+        variant = "mtg" if rnd.random() < variant_p_mtg else "main"
+        sess = {"session": True, "variant": variant, "node_keys": ["element"], "node_defaults": [V("*")], "edge_keys": ["order"],
+                "prune": variant == "main" and rnd.random() < 0.25, "graphs": [], "steps": []}
+        for a, b in pairs[k:k + group]:
+            i = len(sess["graphs"])
+            sess["graphs"] += [tiny_graph(classes[a], 0, rnd), tiny_graph(classes[b], 10, rnd)]
+            combos = [(i, i + 1, False), (i, i + 1, True), (i + 1, i, False), (i + 1, i, True)]
+            rnd.shuffle(combos)
+            combos.append(rnd.choice(combos[:3]))
+            for x, y, mcs in combos:
+                sess["steps"].append({"op": "find", "a": x, "b": y, "mcs": mcs, "peek": []})
+        out.append(sess)
+    return out
+
+
 def load_regress():
     d = ROOT / "regress" / "C12"
     out = []
@@ -595,7 +1209,7 @@ def load_regress():
         for f in sorted(d.glob("*.json")):
             c = json.loads(f.read_text())
             out.append(c.get("case", c))
-    return out
+    return [c for c in out if not c.get("session")], [c for c in out if c.get("session")]
 
 
 def run(ctx):
@@ -606,7 +1220,8 @@ def run(ctx):
         "NetworkX VF2 `GraphMatcher.subgraph_isomorphisms_iter` enumerates exactly the induced embeddings satisfying the closures "
         "(modelled by the proven enumerator Match.allInduced; checked here only through the comparison of result sets)",
         "Driver/Mcs.lean JSON codec, harness/props/c12.py adapter and canonicalisation (each mapping sorted by key, mapping sets sorted)",
-        "out of scope (not modelled): mcs_mol=True (_find_mcs_mol), find_rc_mapping, _componentwise_mcs",
+        "out of scope (not modelled): mcs_mol=True (_find_mcs_mol), find_rc_mapping, _componentwise_mcs (in sessions they are "
+        "called between gated queries, their own results are not judged)",
     ]
     ctx.assumptions = [
         "selected edge attribute values are numbers (multiples of 1/2), None or tuples of such; selected node attribute values are "
@@ -623,16 +1238,32 @@ def run(ctx):
         "copies and one-edit neighbours, disconnected unions, rings (many automorphisms), graphs lacking selected node/edge attributes "
         "(defaults, explicit '*', None, tuple orders), prune_wc, non-contiguous shuffled ids, overlapping and disjoint id ranges, "
         "first graph larger in about a third of the pairs, node_attrs [element] / [element,charge], edge_attrs [order] / "
-        "[order,standard_order] / omitted / empty; every pair is run with mcs on/off x automorphism pruning on/off (main) and mcs on/off (mtg)."
+        "[order,standard_order] / omitted / empty; every pair is run with mcs on/off x automorphism pruning on/off (main) and mcs on/off (mtg). "
+        "OPTIONS stream: pairs as above enriched with hcount / w (nodes) and w (edges; the key w lives on both), node key list = seeded "
+        "permutation of a 1..4-subset of {element,charge,hcount,w} with standard / in-domain / None defaults or defaults omitted, edge key "
+        "list = permutation of a 1..3-subset of {order,standard_order,w} or omitted / empty, prune_wc on element / charge / w / hcount values. "
+        "RARE stream: symmetric skeletons (ring, path, star, clique; uniform labels) with ONE symmetry-breaking attribute in one or both graphs "
+        "and an option set that does / does not select it; tuple orders (x,y) against (x,y) / (y,x) / x / (x,x) / None on the same planted edge; "
+        "spectator components (isolated atoms, diatomics) in one or both graphs; an optional attribute absent from a whole graph; a graph "
+        "against an identical graph with the same ids or against its own induced part. "
+        "SESSION streams (one matcher object, graph objects built once, every find step judged like a stand-alone case): tiny sessions = 6 pairs "
+        "of <=3-node classes per matcher, each pair asked in all four (direction, mode) combinations in seeded order plus one repetition "
+        "(quick: a seeded quarter of all ordered pairs, thorough: all); random sessions = 2..6 queries around a pair from the random / options / "
+        "rare generators with derived pool objects (equal copy, relabelled copy, induced part, one-edit neighbour), steps drawn from: same "
+        "objects again (other/same mode), swapped, other pool objects (also the same object twice), in-place content change of an object, "
+        "equal copy as new object, prune_automorphisms switched, new matcher, other entry points (mcs_mol, find_rc_mapping) as ungated noise, "
+        "reads in between in any order with the returned copies cleared by the caller."
     )
     ctx.nontrivial_rule = ("(pair, mode) distinct as JSON, run in maximum mode, with mcs size >= 2 and smaller than both graphs, "
-                           "or with >= 2 maximum mappings")
+                           "or with >= 2 maximum mappings; a session step counts when the matcher object has answered at least one "
+                           "earlier query and the answer has size >= 2 (distinct by session and step)")
     build_and_audit(ctx, ["SynKitProofs.Props.C12"], "SynKitProofs/Audit/C12.lean", THEOREMS)
 
     ok = True
-    reg = load_regress()
-    ctx.count("regress_cases", len(reg))
+    reg, reg_sessions = load_regress()
+    ctx.count("regress_cases", len(reg) + len(reg_sessions))
     ok &= run_cases(ctx, reg, "regress")
+    ok &= run_sessions(ctx, reg_sessions, "regress-session")
     ok &= run_cases(ctx, malformed_cases(), "malformed")
 
     # tiny exhaustive
@@ -683,12 +1314,62 @@ def run(ctx):
         rcases.append(c)
     if ok:
         ok &= run_cases(ctx, rcases, "random")
+
+    # ---- option / attribute-selection variation (non-default, permuted, longer key lists; keys on nodes and edges)
+    nopt = 260 if ctx.quick else 4000
+    ocases = [options_case(ctx.rnd, "mtg" if ctx.rnd.random() < 0.2 else "main") for _ in range(nopt)]
+    if ok:
+        ok &= run_cases(ctx, ocases, "options")
+    # ---- rare but legal inputs
+    nrare = 260 if ctx.quick else 4000
+    rare = []
+    for i in range(nrare):
+        kind = RARE_KINDS[i % len(RARE_KINDS)]
+        ctx.count("rare_kind:" + kind)
+        rare.append(rare_case(ctx.rnd, "mtg" if ctx.rnd.random() < 0.2 else "main", kind))
+    if ok:
+        ok &= run_cases(ctx, rare, "rare")
+
+    # ---- hidden state: ONE matcher object answers a sequence of queries on graph objects that are built once
+    pairs = [(a, b) for a in range(len(cls3)) for b in range(len(cls3))]
+    if ctx.quick:
+        pairs = [p for p in pairs if ctx.rnd.random() < 0.25]
+    ctx.rnd.shuffle(pairs)
+    if ok:
+        ok &= run_sessions(ctx, tiny_sessions(ctx.rnd, cls3, pairs, group=6), "session-tiny<=3")
+    nsess = 150 if ctx.quick else 2500
+    sessions = []
+    for i in range(nsess):
+        variant = "mtg" if ctx.rnd.random() < 0.2 else "main"
+        src = i % 4
+        if src == 0:
+            base = options_case(ctx.rnd, variant)
+        elif src == 1:
+            base = rare_case(ctx.rnd, variant, RARE_KINDS[(i // 4) % len(RARE_KINDS)])
+        else:
+            base = rand_case(ctx.rnd, KINDS[(i // 4) % len(KINDS)], variant)
+        if len(base["g1"]["nodes"]) > 5 or len(base["g2"]["nodes"]) > 6:
+            base = rand_case(ctx.rnd, "planted", variant)
+        sessions.append(rand_session(ctx.rnd, base, ctx.rnd.randint(2, 6)))
+    if ok:
+        ok &= run_sessions(ctx, sessions, "session-random")
     ctx.obligation("correspondence: MCSMatcher (both variants, every mode and direction) == model SynKit.Mcs.find; "
                    "spec.mcs holds on every implementation output", not ctx.violations)
 
 
 def replay(ctx, case):
     c = case.get("case", case)
+    if c.get("session"):
+        diffs, viols = evaluate_session(ctx, c)
+        ctx.case(c, True)
+        if viols:
+            ctx.violation("common-subgraph matcher output violates C12 (validity / equal size / maximality / inverse directions) "
+                          "for a query put to a matcher object that had answered other queries before",
+                          c, {"spec_violations": viols, "differences_from_model": diffs[:8]})
+        elif diffs:
+            ctx.violation("correspondence broken: a reused MCSMatcher object differs from the Lean model SynKit.Mcs.find", c,
+                          {"differences_from_model": diffs[:8]}, no_input=True)
+        return
     diffs, viols = evaluate(ctx, c)
     ctx.case(c, True)
     if viols:
